@@ -70,6 +70,31 @@ type Task struct {
 	iface *Iface
 	meth  *types.Func
 	site string
+	spawnSeq int
+	parent   string
+}
+
+// Gor is a goroutine that is not currently running: its own frame stack, or a task not yet started.
+type Gor struct {
+	ID      int
+	frames  []*Frame
+	task    *Task // non-nil until first scheduled
+	thread  string
+	isMain  bool
+	blocked bool // waiting for progress by others (retry when scheduled)
+	parked  bool // can never proceed
+	yielding bool
+	blockedAt int
+	blockedOnce bool
+}
+
+func (g *Gor) clone() *Gor {
+	n := *g
+	n.frames = make([]*Frame, len(g.frames))
+	for i, f := range g.frames {
+		n.frames[i] = f.clone()
+	}
+	return &n
 }
 
 type PanicInfo struct {
@@ -97,9 +122,12 @@ type AccessRec struct {
 	Thread string
 	Obj    int
 	Path   string
+	Typ    string
+	Tag    string
 	Write  bool
-	Locks  string
+	Locks  []int
 	Site   string
+	Seq    int
 }
 
 type State struct {
@@ -128,6 +156,12 @@ type State struct {
 	trackAccess bool
 	nfresh  int
 	replaying bool
+	accSeq  int
+	others  []*Gor // goroutines other than the running one
+	curGor  Gor   // bookkeeping of the running goroutine (frames live in State.frames)
+	progress int
+	nextGor int
+	spawns  map[string]SpawnInfo
 	timeCtr int
 	ghostTerm map[string]*smt.Term
 }
@@ -146,6 +180,10 @@ func (s *State) clone(newID int) *State {
 		n.frames[i] = f.clone()
 	}
 	n.tasks = append([]*Task(nil), s.tasks...)
+	n.others = make([]*Gor, len(s.others))
+	for i, g := range s.others {
+		n.others[i] = g.clone()
+	}
 	n.pc = append([]*smt.Term(nil), s.pc...)
 	n.pending = nil
 	n.taken = nil
@@ -174,6 +212,10 @@ func (s *State) clone(newID int) *State {
 		n.ghost[k] = v
 	}
 	n.heldLocks = append([]int(nil), s.heldLocks...)
+	n.spawns = make(map[string]SpawnInfo, len(s.spawns))
+	for k, v := range s.spawns {
+		n.spawns[k] = v
+	}
 	n.ghostTerm = make(map[string]*smt.Term, len(s.ghostTerm))
 	for k, v := range s.ghostTerm {
 		n.ghostTerm[k] = v
@@ -323,6 +365,12 @@ func (s *State) setGhostTerm(k string, t *smt.Term) {
 		s.ghostTerm = map[string]*smt.Term{}
 	}
 	s.ghostTerm[k] = t
+}
+
+// SpawnInfo: a task thread was started by Parent when Parent's access counter stood at Seq.
+type SpawnInfo struct {
+	Parent string
+	Seq    int
 }
 
 type engineErr struct {
